@@ -4,7 +4,7 @@
    frame: either F admits the panic block (the relaxed frame does) or the program has no PPanic.
    No Admitted / Axiom. *)
 From Coq Require Import List NArith Bool Arith Lia.
-From SV Require Import Params Clock.VClock Prim.Objects Prim.Atomic Engine.Exec Engine.Inv Prim.Semaphore
+From SV Require Import Params Clock.VClock Prim.Objects Prim.Atomic Prim.Tls Engine.Exec Engine.Inv Prim.Semaphore
   Lang.Code Lang.ThreadOps Lang.SyncOps Lang.SyncOps2 Lang.AsyncOps Lang.Prog
   Proofs.EngineBase Proofs.ThreadOk Proofs.SemFrame Proofs.SyncFrame Proofs.SyncOk Proofs.Sync2Ok.
 Import ListNotations.
@@ -80,10 +80,31 @@ Proof.
   apply detach_okP. exact IH.
 Qed.
 
-Lemma thread_fin_okP : forall gs ahs, code_okP F (thread_fin gs ahs).
+Definition dtor_okP (dtor : nat -> code -> code) : Prop := forall d k', code_okP F k' -> code_okP F (dtor d k').
+
+Lemma thread_fin_okP : forall tls dtor gs ahs, dtor_okP dtor -> code_okP F (thread_fin tls dtor gs ahs).
 Proof.
-  intros gs ahs. unfold thread_fin. apply okP_log. apply drop_guards_okP. apply detach_all_okP.
-  apply (thread_epilogue_okP F HF).
+  intros tls dtor gs ahs Hd. unfold thread_fin. apply okP_log. apply drop_guards_okP. apply detach_all_okP.
+  apply (thread_epilogue_d_okP F HF). exact Hd.
+Qed.
+
+Lemma scoped_fin_okP : forall z tls dtor gs ahs, dtor_okP dtor -> code_okP F (scoped_fin z tls dtor gs ahs).
+Proof.
+  intros z tls dtor gs ahs Hd. unfold scoped_fin. apply okP_log. apply drop_guards_okP. apply detach_all_okP.
+  apply (scoped_epilogue_d_okP F HF). exact Hd.
+Qed.
+
+Lemma scope_end_okP : forall z k, code_okP F k -> code_okP F (scope_end z k).
+Proof.
+  intros z k Hk. unfold scope_end. apply (atomic_b_okP F HF).
+  - intros e s e' s' b Hr H.
+    destruct (me e) as [m|]; [|discriminate].
+    destruct (scope_get s z) as [[[r mt] w]|]; [|discriminate].
+    destruct (Nat.eqb r 0).
+    + inversion H; subst. apply sframe_refl; exact Hr.
+    + destruct (e_block e m false) as [e1|] eqn:E1; [|discriminate].
+      inversion H; subst. eapply e_block_sframe; [exact Hr|exact E1].
+  - intros blk. apply (switch_if_okP F). exact Hk.
 Qed.
 
 Lemma async_fin_okP : forall jt v gs ahs, code_okP F (async_fin jt v gs ahs).
@@ -106,6 +127,9 @@ Lemma comp_okP : forall fuel jt bodies, (panic_ok F \/ no_panic_op bodies) ->
 Proof.
   intros fuel jt bodies Hp.
   induction fuel as [|f IHf]; intros b ctx fin outer Hfin; cbn [comp]; [apply okP_ret|].
+  assert (Hd : dtor_okP (fun (d : nat) (k : code) =>
+                 comp f jt bodies d CtxBlockOn (fun gs' ahs' => drop_guards true gs' (detach_all ahs' k)) [])).
+  { intros d k' Hk'. apply IHf. intros gs' ahs'. apply drop_guards_okP. apply detach_all_okP. exact Hk'. }
   match goal with
   | |- code_okP _ (?g _ _ _ _ _) =>
     assert (Hgo : forall ops, (panic_ok F \/ Forall (fun o => is_panic_op o = false) ops) ->
@@ -120,7 +144,7 @@ Proof.
     destruct o; cbv beta match fix.
     + (* PSpawn *)
       apply okP_switch. apply okP_spawn.
-      * apply IHf. apply thread_fin_okP.
+      * apply IHf. intros gs' ahs'. apply thread_fin_okP. exact Hd.
       * intros tid. apply okP_log. apply IHr.
     + (* PJoin *)
       split_ans; try apply okP_panic.
@@ -239,11 +263,40 @@ Proof.
       apply (atomic_b_okP F HF).
       * intros e s e' s' c Hr H. eapply is_finished_handle_sframe; [exact Hr|exact H].
       * intros c. apply okP_log. apply IHr.
+    + (* PTlsWith *)
+      apply (atomic_okP_intro F HF).
+      * intros e s e' s' a Hr H.
+        destruct (me e) as [m|]; [|discriminate].
+        destruct (tls_with s (S jt) m key add) as [[[s1 status] old]|]; [|discriminate].
+        inversion H; subst. apply sframe_refl; exact Hr.
+      * intros a. apply okP_log. apply IHr.
+    + (* PThreadId *)
+      apply (atomic_okP_intro F HF); [same_e|].
+      intros a. apply okP_log. apply IHr.
+    + (* PScope *)
+      apply (atomic_u_okP F HF).
+      * intros e s e' s' Hr H.
+        destruct (me e) as [m|]; [|discriminate].
+        destruct (get_obj s z) as [[]|]; try discriminate.
+        inversion H; subst. apply sframe_refl; exact Hr.
+      * apply okP_log. apply IHf. intros gs' ahs'. apply drop_guards_okP. apply detach_all_okP.
+        apply scope_end_okP. apply okP_log. apply IHr.
+    + (* PScopeSpawn *)
+      apply (atomic_u_okP F HF).
+      * intros e s e' s' Hr H.
+        destruct (scope_get s z) as [[[rn m] w]|]; [|discriminate].
+        inversion H; subst. apply sframe_refl; exact Hr.
+      * apply okP_switch. apply okP_spawn.
+        -- apply IHf. intros gs' ahs'. apply scoped_fin_okP. exact Hd.
+        -- intros tid. apply okP_log. apply IHr.
 Qed.
 
 Theorem compile_okP : forall jt bodies, (panic_ok F \/ no_panic_op bodies) -> code_okP F (compile jt bodies).
 Proof.
-  intros jt bodies Hp. unfold compile. apply comp_okP; [exact Hp|]. apply thread_fin_okP.
+  intros jt bodies Hp. unfold compile. apply comp_okP; [exact Hp|].
+  intros gs ahs. apply thread_fin_okP.
+  intros d k' Hk'. unfold top_dtor. apply comp_okP; [exact Hp|].
+  intros gs' ahs'. apply drop_guards_okP. apply detach_all_okP. exact Hk'.
 Qed.
 
 End ProgOk.
